@@ -130,12 +130,18 @@ NegMargin(A, B) == LET d == Det(B) IN
 ClearlyIndefinite(A) ==
     \E S \in (SUBSET (1..Len(A))) \ {{}} : NegMargin(A, Principal(A, S))
 
+(* beyond the orders for which all principal minors are enumerated, the 1 x 1
+   principal minors still decide: a diagonal entry a_ii <= -||A||_inf / 2^NegLog2
+   is an eigenvalue bound lambda_min <= a_ii (Rayleigh quotient of e_i) *)
+NegDiagonal(A) == \E i \in 1..Len(A) : A[i][i] < 0 /\ -A[i][i] >= CeilDiv(NormInf(A), Pow2(NegLog2))
+
 (* which way does exact elimination break down?  (used only to name the
    failing input class of a violated error clause) *)
 RECURSIVE FirstNonPos(_, _)
 FirstNonPos(s, k) == IF k > Len(s) THEN 0 ELSE IF s[k] <= 0 THEN k ELSE FirstNonPos(s, k + 1)
 ErrClassOf(lm, f) == IF f = 0 THEN "none" ELSE IF lm[f] = 0 THEN "zeroPivot" ELSE "negPivot"
-ErrClass(A) == ErrClassOf(LeadingMinors(A), FirstNonPos(LeadingMinors(A), 1))
+ErrClass(A) == IF SylvesterScope(A) THEN ErrClassOf(LeadingMinors(A), FirstNonPos(LeadingMinors(A), 1))
+               ELSE "negDiag"
 
 (***************************************************************************)
 (* LU:  P A = L U,  L unit lower triangular, U upper triangular, P a       *)
@@ -253,6 +259,7 @@ SymClass(e) ==
     ELSE IF PosDef(e.A)
          THEN (IF FullRankWC(e.A, e.cert, e.n, e.n) THEN "spd" ELSE "unc")
     ELSE IF SylvesterScope(e.A) /\ ClearlyIndefinite(e.A) THEN "neg"
+    ELSE IF ~SylvesterScope(e.A) /\ NegDiagonal(e.A) THEN "neg"
     ELSE "unc"
 
 EvCholAs(e, class) ==
@@ -281,10 +288,11 @@ EvChol(e) == EvCholAs(e, SymClass(e))
 SNonIncreasing(rk) == \A i \in 1..(Len(rk) - 1) : rk[i] >= rk[i + 1]
 SNonNegative(sgn) == \A i \in 1..Len(sgn) : sgn[i] >= 0
 
-AVeqUS(A, Vt, U, s, S, w, mag) ==
+AVeqUSOn(A, Vt, U, s, S, la, sl) ==
     \A i \in 1..Len(A) : \A j \in 1..Len(Vt) :
         Near(Pow2(S) * Dot(A[i], Vt[j]), U[i][j] * s[j],
-             Pow2(S) * IQTol(A[i]) + HalfUp(Abs(U[i][j]) + Abs(s[j]) + 1) + Slack(w, Len(A[i]), mag))
+             Pow2(S) * HalfUp(la[i]) + HalfUp(Abs(U[i][j]) + Abs(s[j]) + 1) + sl)
+AVeqUS(A, Vt, U, s, S, w, mag) == AVeqUSOn(A, Vt, U, s, S, RowL1(A), Slack(w, NCols(A), mag))
 
 RECURSIVE Triple(_, _, _, _)   \* sum_k u_k s_k v_k
 Triple(u, s, v, k) == IF k = 0 THEN 0 ELSE u[k] * s[k] * v[k] + Triple(u, s, v, k - 1)
@@ -314,8 +322,8 @@ SVDCheck(A, o, m, n, S, w) ==
                         m * MaxAbsM(o.U) * MaxAbsM(o.U)) THEN "SVD.UtU=I"
     ELSE IF ~AVeqUS(A, Tr(o.V), o.U, o.s, S, w,
                     n * MaxAbsM(A) * Pow2(S) * MaxAbsM(o.V)) THEN "SVD.AV=US"
-    ELSE IF ~RebuildOK(A, Coarse(o.U, 4), [k \in 1..n |-> Requant(o.s[k], 4)], Coarse(o.V, 4), S, w)
-         THEN "SVD.A=USVt"
+    ELSE IF o.tri /\ ~RebuildOK(A, Coarse(o.U, 4), [k \in 1..n |-> Requant(o.s[k], 4)], Coarse(o.V, 4), S, w)
+         THEN "SVD.A=USVt"     \* (o.tri: the triple product fits 32 bits; AV = US above is the full-scale form)
     ELSE "pass"
 
 SVDShapeName(e) == IF e.m = e.n THEN "SVD.square" ELSE IF e.m > e.n THEN "SVD.tall" ELSE "SVD.wide"
